@@ -472,7 +472,12 @@ func main() {
 	}
 	addStream := func(class string, stream []byte) {
 		segs := segment(r, stream)
-		run.Add(class, vh.App("CStream", vh.Hx(stream), implStream(segs)),
+		tlsName, tlsOK := tlsServerName(stream)
+		tlsCoq := vh.None
+		if tlsOK {
+			tlsCoq = vh.Some(vh.HxS(tlsName))
+		}
+		run.Add(class, vh.App("CStream", vh.Hx(stream), implStream(segs), tlsCoq),
 			map[string]interface{}{"fn": "SNIProxy.ServeTCP", "stream_len": len(stream), "segments": len(segs)})
 	}
 
@@ -522,6 +527,33 @@ func main() {
 			map[string]interface{}{"fn": "readServerName", "exts": len(h.Exts), "has_sni": h.HasSNI, "sni_entries": len(h.SNI), "want": want, "impl": got, "tls_ok": tlsOK, "tls_name": tlsName})
 		if i%4 == 0 {
 			addStream("ast-hello-stream", append(append([]byte(nil), rec...), randBytes(r, r.Intn(30))...))
+		}
+	}
+
+	// 2a. large hellos (long ALPN lists, PSKs, post-quantum key shares, padding): records
+	// beyond bufio's default 4096-byte buffer, up to the 16 KiB record limit, through the
+	// whole SNIProxy path and through the parser
+	for i := 0; i < run.Scale(36, 600); i++ {
+		h := genHello(r)
+		h.HasExts = true
+		base := len(record(h.handshake()))
+		targets := []int{4091, 4096, 4097, 4101, 8192, 16384 + 5, 16384 + 4, 4000 + r.Intn(12000), 4000 + r.Intn(12000)}
+		want := targets[i%len(targets)]
+		pad := want - base - 4
+		if pad < 0 {
+			pad = 0
+		}
+		e := ext{Type: 21, Data: make([]byte, pad)}
+		pos := r.Intn(len(h.Exts) + 1)
+		h.Exts = append(h.Exts[:pos], append([]ext{e}, h.Exts[pos:]...)...)
+		hs := h.handshake()
+		if len(hs) > 16384 {
+			continue
+		}
+		rec := record(hs)
+		addStream("large-hello-stream", append(append([]byte(nil), rec...), randBytes(r, r.Intn(30))...))
+		if i%3 == 0 {
+			addRead("large-hello", rec, fmt.Sprintf("record=%d", len(rec)))
 		}
 	}
 
